@@ -43,27 +43,31 @@ sh('git -C /repo worktree remove --force %s' % WT)
 r = sh('git -C /repo worktree add --detach %s HEAD' % WT)
 assert r.returncode == 0, r.stderr
 try:
-    shutil.copyfile(demo, os.path.join(WT, 'tests', 'demo_seed.rs'))
-    r0 = sh('cargo test --offline --test demo_seed', cwd=WT)
-    base = results(r0)
-    log['demo_without_change'] = base
-    demo_passes_without = bool(base) and all(ok for _, ok, _, _ in base) and r0.returncode == 0
     r = sh('git apply %s' % os.path.abspath(change), cwd=WT)
     log['apply'] = r.returncode
     applies = r.returncode == 0
+    # 1. existing suite with the change (demo not present)
     r1 = sh('cargo test --offline --no-fail-fast', cwd=WT)
     allr = results(r1)
     log['all_with_change'] = allr
     compiled = 'error: could not compile' not in r1.stderr and 'error[E' not in r1.stderr
-    existing = [x for x in allr if 'demo_seed' not in x[0]]
-    demo_r = [x for x in allr if 'demo_seed' in x[0]]
-    existing_pass = compiled and len(existing) >= 5 and all(ok for _, ok, _, _ in existing) and sum(p for _, _, p, _ in existing) >= 110
-    demo_fails_with = bool(demo_r) and not all(ok for _, ok, _, _ in demo_r)
+    existing = allr
+    existing_pass = compiled and r1.returncode == 0 and len(existing) >= 5 and all(ok for _, ok, _, _ in existing) and sum(p for _, _, p, _ in existing) >= 110
+    # 2. demo with the change
+    shutil.copyfile(demo, os.path.join(WT, 'tests', 'demo_seed.rs'))
+    r2 = sh('cargo test --offline --test demo_seed', cwd=WT)
+    demo_compiles = 'error: could not compile' not in r2.stderr and 'error[E' not in r2.stderr
+    demo_fails_with = demo_compiles and r2.returncode != 0
+    log['demo_with_change_tail'] = (r2.stdout + r2.stderr)[-400:]
+    # 3. demo without the change
+    sh('git checkout -- src', cwd=WT)
+    r0 = sh('cargo test --offline --test demo_seed', cwd=WT)
+    demo_passes_without = r0.returncode == 0 and any(ok for _, ok, _, _ in results(r0))
     verdict = applies and compiled and existing_pass and demo_fails_with and demo_passes_without
     print('applies', applies, 'compiled', compiled, 'existing_pass', existing_pass, sum(p for _, _, p, _ in existing), 'demo_fails_with', demo_fails_with,
           'demo_passes_without', demo_passes_without, '=> CONFIRMED' if verdict else '=> REJECTED')
     if not verdict:
-        print((r1.stderr + r0.stderr)[-1500:])
+        print((r1.stderr[-800:] + r2.stderr[-800:] + r0.stderr[-400:]))
         sys.exit(1)
 finally:
     sh('git -C /repo worktree remove --force %s' % WT)
